@@ -200,6 +200,8 @@ fn judge(case: &PCase, ctx: &Ctx) -> Outcome {
           Opts { skip_last_lazy: true, ..Opts::default() },
           Opts { skip_last_lazy: true, buffer_ignore_notifier_complete: true, ..Opts::default() },
           Opts { take0_immediate: true, ..Opts::default() },
+          Opts { take0_at_first_item: true, ..Opts::default() },
+          Opts { take0_at_first_item: true, skip_last_lazy: true, ..Opts::default() },
         ] {
           if model::eval(&case.node, &inputs, o).map_or(false, |e| e == act) {
             ok = true;
